@@ -3,6 +3,7 @@ package scenarios
 import (
 	"bytes"
 	"fmt"
+	"sort"
 	"testing"
 
 	"github.com/syndtr/goleveldb/leveldb/comparer"
@@ -285,5 +286,90 @@ func TestApproximateOffsetsNeverDecreaseWithAFilter(t *testing.T) {
 				t.Fatalf("offset past the last key is 0 for a %d-byte table", buf.Len())
 			}
 		})
+	}
+}
+
+
+// obligation table.(*Reader).Find:assert(C13,C16:filter-used-only-when-the-caller-allows-it ...)
+// First-key->= lookups (Reader.Find with filtered=false) must return the first
+// stored pair whose key is >= the probe, whatever the filter setting of the
+// table is. The filter may only be consulted when the caller asks for it
+// (filtered=true), because a filter answers "is exactly this key present" and
+// says nothing about the successor of an absent key.
+func TestFirstKeyNotSmallerLookupIgnoresTheFilter(t *testing.T) {
+	// Stored keys: k0000, k0010, k0020, ... ; probes: every k00NN in between
+	// and around.
+	var keys []string
+	for i := 0; i < 40; i++ {
+		keys = append(keys, fmt.Sprintf("k%04d", i*10))
+	}
+	valueOf := func(k string) []byte { return []byte("value-of-" + k) }
+
+	for _, filt := range []filter.Filter{nil, filter.NewBloomFilter(10)} {
+		for _, compression := range []opt.Compression{opt.NoCompression, opt.SnappyCompression} {
+			for _, restart := range []int{1, 4, 16} {
+				for _, blockSize := range []int{64, 300, 4096} {
+					name := fmt.Sprintf("filter=%v/compression=%v/restart=%d/blockSize=%d", filt != nil, compression, restart, blockSize)
+					o := &opt.Options{
+						Comparer:             comparer.DefaultComparer,
+						Filter:               filt,
+						Compression:          compression,
+						BlockRestartInterval: restart,
+						BlockSize:            blockSize,
+						Strict:               opt.StrictBlockChecksum,
+					}
+
+					buf := &bytes.Buffer{}
+					tw := table.NewWriter(buf, o, nil, 0)
+					for _, k := range keys {
+						if err := tw.Append([]byte(k), valueOf(k)); err != nil {
+							t.Fatalf("%s: Append(%q): %v", name, k, err)
+						}
+					}
+					if err := tw.Close(); err != nil {
+						t.Fatalf("%s: Close: %v", name, err)
+					}
+					tr, err := table.NewReader(bytes.NewReader(buf.Bytes()), int64(buf.Len()), storage.FileDesc{Type: storage.TypeTable, Num: 1}, nil, nil, o)
+					if err != nil {
+						t.Fatalf("%s: NewReader: %v", name, err)
+					}
+
+					bad := 0
+					for p := 0; p < 400; p++ {
+						probe := fmt.Sprintf("k%04d", p)
+						// Model answer: first stored key >= probe.
+						i := sort.SearchStrings(keys, probe)
+
+						rkey, rvalue, err := tr.Find([]byte(probe), false, nil)
+						switch {
+						case i == len(keys):
+							if err != table.ErrNotFound {
+								bad++
+								t.Errorf("%s: Find(%q) = %q, %v; want ErrNotFound (probe is after the last key)", name, probe, rkey, err)
+							}
+						case err != nil:
+							bad++
+							if bad <= 5 {
+								t.Errorf("%s: Find(%q) failed: %v; want key %q", name, probe, err, keys[i])
+							}
+						case string(rkey) != keys[i] || !bytes.Equal(rvalue, valueOf(keys[i])):
+							bad++
+							t.Errorf("%s: Find(%q) = %q/%q; want key %q", name, probe, rkey, rvalue, keys[i])
+						}
+
+						// The key-only variant must agree.
+						fkey, ferr := tr.FindKey([]byte(probe), false, nil)
+						if i < len(keys) && (ferr != nil || string(fkey) != keys[i]) {
+							bad++
+							t.Errorf("%s: FindKey(%q) = %q, %v; want key %q", name, probe, fkey, ferr, keys[i])
+						}
+					}
+					if bad > 5 {
+						t.Errorf("%s: %d wrong first-key->= lookups in total", name, bad)
+					}
+					tr.Release()
+				}
+			}
+		}
 	}
 }
